@@ -41,6 +41,43 @@ func implStreamDec(key, ct []byte) (string, []byte, string) {
 	return lst(hx(out), oc), out, oc
 }
 
+// the same through io.Copy (what cmd/age does): uses WriterTo / ReaderFrom fast paths if any exist
+func implStreamDecCopy(key, ct []byte) (string, []byte, string) {
+	r, _ := stream.NewReader(key, bytes.NewReader(ct))
+	var buf onlyWriter
+	_, err := io.Copy(&buf, r)
+	oc := implOutcome(err)
+	return lst(hx(buf.b), oc), buf.b, oc
+}
+
+type onlyWriter struct{ b []byte }
+
+func (w *onlyWriter) Write(p []byte) (int, error) { w.b = append(w.b, p...); return len(p), nil }
+
+// zeroReadSrc returns (0, nil) once, right after `after` bytes have been delivered
+type zeroReadSrc struct {
+	data  []byte
+	after int
+	done  bool
+	pos   int
+}
+
+func (z *zeroReadSrc) Read(p []byte) (int, error) {
+	if z.pos >= z.after && !z.done {
+		z.done = true
+		return 0, nil
+	}
+	if z.pos >= len(z.data) {
+		return 0, io.EOF
+	}
+	n := copy(p, z.data[z.pos:])
+	if z.pos < z.after && z.pos+n > z.after {
+		n = z.after - z.pos
+	}
+	z.pos += n
+	return n, nil
+}
+
 func (c *Ctx) c02Case(kind string, key, plain, honest, ct []byte) { c.c02CaseK(kind, key, plain, honest, ct, false) }
 
 // keyed: the altered ciphertext contains chunks sealed by someone who knows the
@@ -64,6 +101,17 @@ func (c *Ctx) c02CaseK(kind string, key, plain, honest, ct []byte, keyed bool) {
 	c.Oracle("released-bytes-are-a-prefix", bytes.HasPrefix(plain, out), "stream-wrong-plaintext", in, "bytes released before the error are not a prefix of the original plaintext")
 	c.Oracle("altered-payload-never-clean-eof", same || oc != ":eof", "stream-tamper-accepted", in, "an altered payload decrypted to a clean end of stream")
 	c.Oracle("untouched-payload-decrypts", !same || (oc == ":eof" && bytes.Equal(out, plain)), "stream-roundtrip", in, "the untouched payload did not decrypt")
+	// draining with io.Copy must give the same verdict as Read / io.ReadAll
+	if len(ct) < 3000 || c.evals%4 == 0 {
+		implC, _, _ := implStreamDecCopy(key, ct)
+		c.Oracle("io.Copy-and-Read-agree", implC == impl, "stream-copy-path-differs", in, "draining the reader with io.Copy gives "+clipN(implC, 80)+" but Read gives "+clipN(impl, 80))
+	}
+	// an altered payload is not accepted either when the source interposes a zero-length read after the final chunk
+	if !same && len(ct) > len(honest) && bytes.HasPrefix(ct, honest) {
+		r, _ := stream.NewReader(key, &zeroReadSrc{data: ct, after: len(honest)})
+		_, zerr := io.ReadAll(r)
+		c.Oracle("altered-payload-never-clean-eof", zerr != nil, "stream-tamper-accepted-zero-read", in, "trailing data was accepted when the source returned (0, nil) once after the final chunk")
+	}
 	c.note(kind+":"+string(ct[:min(len(ct), 64)])+fmt.Sprint(len(ct)), !same)
 	c.count(kind)
 }
